@@ -252,9 +252,14 @@ func c13Loaded(c *explore.Ctx, s *explore.SubStats, text string, cfgs []sfmtCfg)
 		}
 		if a, b := norm(dump0), norm(schemaDump(sch2)); a != b {
 			key := "sfmt/schema " + cc + " " + firstDiffLine(a, b)
-			if schemaDescRe.ReplaceAllString(a, `${1}desc=""`) == schemaDescRe.ReplaceAllString(b, `${1}desc=""`) {
+			a2, b2 := schemaDescRe.ReplaceAllString(a, `${1}desc=""`), schemaDescRe.ReplaceAllString(b, `${1}desc=""`)
+			if a2 == b2 {
 				key = "sfmt/schema schema-description-lost"
 			} else if onlyBuiltinLinesDiffer(a, b) {
+				key = "sfmt/schema extension-of-built-in-type-not-printed"
+			} else if onlyBuiltinLinesDiffer(a2, b2) {
+				// both recorded findings at once (a described schema and an extended built-in type)
+				bad("sfmt/schema schema-description-lost", "the re-loaded schema differs from the original\n--- formatted:\n"+out, a, b)
 				key = "sfmt/schema extension-of-built-in-type-not-printed"
 			}
 			bad(key, "the re-loaded schema differs from the original\n--- formatted:\n"+out, a, b)
